@@ -49,13 +49,13 @@ GEN = {
             "the seven format markers on string fields, top level and nested; values: member / non-member corpora per language (incl. the seeded-change triggers: DEL in local part, U+0161, '{' host, control byte in UUID, Latin-1 bytes); fields also declared through an alias of string"),
     "C07": ("c07", "is", "Gvlean.Props.C07", ["Props.c07", "Props.c07_nil_iff", "Props.c07_nil_receiver", "Props.c07_is"], ["spec", "is", "nilrecv", "gen_fail", "build"],
             "random Clean structs: 1..8 fields, 0..4 documented markers per field from every family, optional nesting to depth 2, optional struct-level markers, 1-3 structs per package sharing field names; values: base vector, every candidate of every leaf one at a time, 12 random vectors; errors.Is against every exported Err* (plain and %w-wrapped), nil receiver; doc comments with prose before and AFTER the markers; structs of 49/66/100 fields with more than 64 rules (one all-valid vector, one violation per field, mixed vectors)"),
-    "C15": ("c07", "is,ctx", "Gvlean.Props.C15", ["Props.c15_cancelled", "Props.c15_already_done", "Props.c15_undisturbed", "Props.c15_wrappers", "Props.c15_skeleton", "Props.c15_any_checks_cancelled", "Props.c15_any_checks_already_done", "Props.c15_any_checks_undisturbed", "Props.c15_report_only_undisturbed"], ["ctx", "wrappers", "unknown"],
+    "C15": ("c07", "is,ctx", "Gvlean.Props.C15", ["Props.c15_cancelled", "Props.c15_already_done", "Props.c15_undisturbed", "Props.c15_wrappers", "Props.c15_skeleton", "Props.c15_any_checks_cancelled", "Props.c15_any_checks_already_done", "Props.c15_any_checks_undisturbed", "Props.c15_report_only_undisturbed", "Props.c15_template"], ["ctx", "wrappers", "unknown"],
             "the random Clean structs of C07; for every value a context that turns done at its k-th Err() call for every k from 0 to polls+1, Canceled and DeadlineExceeded; observed result and number of Err() calls compared with the contract and with the Lean model; wrappers Validate/ValidateT/ValidateContext(Background) compared with ValidateTContext"),
-    "C16": ("c07", "mut,race", "Gvlean.Props.C16", ["Props.c16_write_set", "Props.c16_helpers_pure"], ["mut", "unknown"],
+    "C16": ("c07", "mut,race", "Gvlean.Props.C16", ["Props.c16_write_set", "Props.c16_helpers_pure", "Props.c16_template"], ["mut", "unknown"],
             "the random Clean structs of C07; deep snapshot of the receiver (slice/map contents, pointer targets) before and after two Validate() calls, results compared, Value of every exported sentinel checked unset; statement forms of the generated file outside the template grammar are reported; the compiled validators built with -race and called from 2, 8 and 64 goroutines x 40 iterations on shared values and on private copies (quick: first driver chunk, thorough: all); CEL-bearing structs raced from 8 goroutines with per-goroutine inputs, receivers rendered before/after"),
     "C17": ("all", "is,ctx", "Gvlean.Props.C17", ["Props.c17_recognizers", "Props.c17_validate", "Props.c17_validate_ctx", "Props.c17_nil_receiver"], ["panic"],
             "the rule x type matrix and random structs on the adversarial value lattice (zero, -1, min, max, NaN, +-Inf, nil, empty, invalid UTF-8, DEL/control bytes) under recover(): Validate, ValidateT, ValidateContext with every cancellation point, nil receiver"),
-    "C19": ("all", "alloc", "Gvlean.Props.C19", ["Props.c19", "Props.c19_only_failing_branches"], ["alloc"],
+    "C19": ("all", "alloc", "Gvlean.Props.C19", ["Props.c19", "Props.c19_only_failing_branches", "Props.c19_template"], ["alloc"],
             "every (non-CEL marker, documented type) scenario and the random multi-field structs; testing.AllocsPerRun(20) around Validate(), ValidateT(t) and ValidateContext(Background) for every value whose observed result is nil"),
     "C09": ("c09", "", "Gvlean.Props.C09", ["Props.c09_never_accepted", "Props.c09_coverage", "Props.c09_inapplicable", "Props.c09_every_name", "Props.c09_nest_marker", "Props.c09_nest_marker_never_accepted", "Props.c09_nest_marker_rv", "Props.c09_nest_marker_specN", "Props.c09_specN_conservative", "Props.c09_specN_clean", "Props.c09_nest_required_struct_member"], ["spec", "gen_fail", "build"],
             "declaration shapes: struct-level vs per-field placement of the same markers on identical values, struct-level markers over fields of every type (inapplicable ones must be left unconstrained), 1..5 markers per field, up to 100 fields, fields before/after nested structs; markers on nested structs incl. `A, B struct{...}` declared inside another nested struct (multiset of (rule, value) against the Spec of the pushed-down declaration); prose after markers"),
